@@ -12,7 +12,7 @@ def classify(case_line):
 CFG = dict(
     imports=["From Verif.C18 Require Import Model Spec.", "Open Scope N_scope."],
     checker="check_case",
-    n=dict(quick=200, thorough=12000),
+    n=dict(quick=200, thorough=2400),
     shard=15,
     classify=classify,
     rule="op sequences (6-40 ops) over 2-6 keys x 1-4 values on the real DeltaTracker[int,int] with valuesEqual = (==) "
